@@ -6,7 +6,7 @@ ID = "C04"
 LEVEL = "exploration"
 NSWEEP1 = sum(6 ** k for k in range(1, 7))       # all OH* sequences up to length 6 on one thread
 NSWEEP2 = sum(12 ** k for k in range(1, 5))      # up to length 4 on two threads sharing one CPU
-NRANDOM = {"quick": 6000, "thorough": 60000}
+NRANDOM = {"quick": 8000, "thorough": 60000}
 RUNS = {"quick": NRANDOM["quick"], "thorough": NRANDOM["thorough"] + NSWEEP1 + NSWEEP2}
 LETTERS = "xpcwre"
 RULE = ("seeded histories over the OH* alphabet (plus affinity and filler events) on 1-5 threads over 1-4 CPUs "
